@@ -82,7 +82,7 @@ def gen_lines(rng, st, count):
 
 
 def streams(ctx, scale=1):
-    per = (60 if ctx.tier == "quick" else 2500) * scale
+    per = (60 if ctx.tier == "quick" else 1200) * scale
     ex = pg.exe(ctx, "base")
     lines = ["cfg"]
     for cid in IDS["base"]:
